@@ -21,12 +21,15 @@ MANIFEST = dict(
          "for every units option; the resulting terms are compared (sympy as normaliser) with the stated definitions carrying the "
          "unit factors of the requested option: 2*asin(|p1-p2|/2), pi - asin|p1 x p2| on the near-antipodal branch whose threshold on "
          "|p1-p2|^2 must lie in [3, 3.9999], acos(clip(sin d1 sin d2 + cos d1 cos d2 cos(dra), -1, 1)); every asin/acos argument is "
-         "two-sided clipped or sits in the branch that bounds it; the exact-zero override for identical inputs is a piece of the result "
+         "two-sided clipped or sits in the branch that bounds it; the small quantity under the root of either piece is a sum of terms that vanish one by one in the degenerate "
+         "configuration (order-of-magnitude abstract interpretation: no cancellation of terms of order one directly under the root); "
+         "an input angle is reduced (%) only modulo a whole number of turns in its own unit, for every units option; "
+         "the exact-zero override for identical inputs is a piece of the result "
          "(in the output unit) that no other piece overrides; symmetry under exchange of the two points is decided symbolically; a "
          "per-point mask must not index the component axis of a stacked array; rank provenance from the raw arguments: single-argument "
          "where()/nonzero() needs a condition reached by ndmin=1-normalised values and .any()/.all() a numpy-typed receiver when the "
          "inputs are scalars (boolean-mask subscripts work for every rank).",
-    note="Not decided: the 1e-11 / 2e-6 degree accuracy, finiteness under rounding. Trusted: sympy's normaliser (a failure to "
+    note="Not decided: the 1e-11 / 2e-6 degree accuracy beyond the conditioning rule (a structural necessary condition), finiteness under rounding. Trusted: sympy's normaliser (a failure to "
          "normalise two equal forms would be a false alarm; benign-twin self-tests guard the idioms in use), numpy element-wise semantics.",
     technique="static analysis: abstract interpretation over a symbolic term domain with algebraic normal-form comparison (sympy as normaliser), AST rank/shape rules",
 )
@@ -45,7 +48,7 @@ def xyz(ra, dec, units):
 
 # rules that keep their verdict however the code is laid out (decided by term equality, effect analysis or dominance over
 # resolved calls); every other rule of this check is a template rule (vcheck.core.Check.obt)
-SEMANTIC = ('R08.2', 'R08.4', 'R08.5', 'R08.6', 'R08.7')
+SEMANTIC = ('R08.2', 'R08.4', 'R08.5', 'R08.6', 'R08.7', 'R08.8', 'R08.9')
 
 
 def source_repo():
@@ -99,6 +102,8 @@ def run(chk):
         r = se.run(fi, {"ra": ra, "dec": dec}, {"units": units, "stomp": False})
         ref = xyz(ra, dec, units)
         ok = isinstance(r, tuple) and len(r) == 3
+        if ok and all(isinstance(x, sp.Basic) for x in r):
+            r = tuple(reduction_rule(chk, fi, "eq2xyz[units=%s]" % units, sp.Tuple(*r), (ra, dec), units))
         for i, nm in enumerate("xyz"):
             eq = ok and symx.equal(r[i], ref[i])[0]
             chk.ob("R08.4", "eq2xyz[units=%s]::%s" % (units, nm), bool(eq), fi.where(),
@@ -119,17 +124,289 @@ def run(chk):
                 chk.ob("R08.6", "sphdist::mask-on-point-axis::" + txt.split("`")[1], False, wh, txt)
             if not se.issues:
                 chk.ob("R08.6", tag + "::mask-on-point-axis", True, fi.where(), "per-point masks index per-point axes only")
+            r = reduction_rule(chk, fi, tag, r, (ra1, dec1, ra2, dec2), uin)
             check_chord(chk, fi, tag, r, (ra1, dec1, ra2, dec2), uin, uout)
 
     # ---- cosine-based separation -----------------------------------------------
     fi = repo.func(CO + "gcirc")
     chk.analysed_unit(fi.qualname)
     r = se.run(fi, {"ra1deg": ra1, "dec1deg": dec1, "ra2deg": ra2, "dec2deg": dec2}, {"getangle": False})
+    r = reduction_rule(chk, fi, "gcirc", r, (ra1, dec1, ra2, dec2), "deg")
     check_cosine(chk, fi, r, (ra1, dec1, ra2, dec2))
 
     # ---- scalar / array uniformity ---------------------------------------------
     for q in (CO + "sphdist", CO + "gcirc"):
         rank_rule(chk, repo, repo.func(q))
+
+
+# --------------------------------------------------------------------------
+# R08.9 an angle may only be reduced modulo a whole number of turns *in its own unit*
+# --------------------------------------------------------------------------
+# "unchanged when 360 degrees is added to a longitude" invites `ra % 360`.  A reduction Mod(u, P) of an input angle u keeps the
+# direction of the point for every u only when P is a whole number of turns in the unit u is in: 360*n for degrees, 2*pi*n for
+# radians (and c times that when u is the input scaled by c, e.g. after deg2rad).  Any other P moves some points (Mod(-0.1 rad, 360)
+# = 359.9 rad), so the separation is wrong for them.  The rule is decided on the result term for every units option, wherever the
+# reduction is written (on the raw arguments, inside a helper, on the longitude difference, in the identical-inputs condition).
+
+def _lin_coeff(u, syms):
+    """|c| when u = +-c*(input angles) + constant with one common |c| (a scaled input angle or a difference of two), else None"""
+    try:
+        u = sp.expand(u)
+    except Exception:
+        return None
+    cs, rest = [], u
+    for s_ in syms:
+        c = u.coeff(s_, 1)
+        if c != 0:
+            if c.free_symbols:
+                return None
+            cs.append(sp.Abs(c))
+            rest = rest - c * s_
+    rest = sp.expand(rest)
+    if not cs or rest.has(*syms) or rest.has(sp.Mod):
+        return None
+    if any(sp.simplify(c - cs[0]) != 0 for c in cs[1:]):
+        return None
+    return cs[0]
+
+
+def _whole(q):
+    """q is a non-zero whole number (a float literal of a period, e.g. 6.283185307179586 for 2*pi, counts): True / False; None = not a number"""
+    try:
+        q = sp.simplify(q)
+        if q.is_Integer:
+            return q != 0
+        if not q.is_number or q.free_symbols:
+            return None
+        qf = float(q)
+    except Exception:
+        return None
+    if q.is_Rational:
+        return False
+    n = round(qf)
+    return bool(n != 0 and abs(qf - n) <= 1e-9 * abs(n))
+
+
+def _strip_reductions(e, status, syms):
+    """the term with the judged reductions removed where that leaves the function unchanged: inside sin/cos (argument linear in the
+    reduction, coefficient times period a multiple of 2*pi) and in `g(point 1) == g(point 2)` conditions (identical inputs still
+    satisfy it; with a whole-turn period it still implies equal directions).  A reduction that was reported as a violation is removed
+    as well, so that the remaining rules judge the rest of the function instead of repeating the report."""
+    sw = None
+    if len(syms) == 4:
+        ra1, dec1, ra2, dec2 = syms
+        sw = {ra1: ra2, ra2: ra1, dec1: dec2, dec2: dec1}
+
+    def trig(x):
+        try:
+            a = sp.expand(x.args[0])
+        except Exception:
+            return x
+        hit = False
+        for M in sorted(a.atoms(sp.Mod), key=str):
+            if M not in status:
+                continue
+            k = a.coeff(M, 1)
+            if k == 0 or k.has(sp.Mod) or (a - k * M).expand().has(M):
+                continue
+            if status[M] is False or _whole(k * M.args[1] / (2 * sp.pi)):
+                a = a.xreplace({M: M.args[0]})
+                hit = True
+        return x.func(a) if hit else x
+
+    def eq(x):
+        ms = x.atoms(sp.Mod)
+        if sw is None or not ms or any(M not in status for M in ms):
+            return x
+        try:
+            same = x.lhs.xreplace(sw) == x.rhs or symx.equal(x.lhs.xreplace(sw), x.rhs)[0]
+        except Exception:
+            same = False
+        if not same:
+            return x
+        rep = {M: M.args[0] for M in ms}
+        return sp.Eq(x.lhs.xreplace(rep), x.rhs.xreplace(rep))
+
+    try:
+        e = e.replace(lambda x: isinstance(x, (sp.sin, sp.cos)) and x.has(sp.Mod), trig)
+        e = e.replace(lambda x: isinstance(x, sp.Eq) and x.has(sp.Mod), eq)
+    except Exception:
+        pass
+    return e
+
+
+def reduction_rule(chk, fi, tag, r, syms, uin):
+    """judges every Mod(angle, period) of the result term; returns the term the other rules look at"""
+    if not isinstance(r, sp.Basic):
+        return r
+    mods = sorted((M for M in r.atoms(sp.Mod) if M.args[0].has(*syms)), key=str)
+    if not mods:
+        return r
+    turn = sp.Integer(360) if uin == "deg" else 2 * sp.pi
+    status = {}
+    for M in mods:
+        u, P = M.args
+        c = _lin_coeff(u, syms)
+        ok = _whole(P / (c * turn)) if (c is not None and not P.free_symbols) else None
+        if ok is not None:
+            status[M] = ok
+        unit = "%s given in %s" % (u, uin) if c == 1 else "%s (input in %s scaled by %s)" % (u, uin, c)
+        chk.ob("R08.9", "%s::reduced-by-whole-turns::%s" % (tag, M), ok, fi.where(),
+               "an angle is only ever reduced modulo a whole number of turns in its own unit: `%s` reduces %s, where one turn is %s%s"
+               % (M, unit, "not determined" if c is None else c * turn,
+                  "" if ok else ("; the reduction is not recognised as one of an input angle" if ok is None else
+                                 "; %s is not a whole number of turns, so the reduction moves the point (every negative angle, and every angle "
+                                 "above the period, becomes a different direction) and the separation is wrong" % M.args[1])))
+    return _strip_reductions(r, status, syms)
+
+
+# --------------------------------------------------------------------------
+# R08.8 conditioning: a small quantity under a root is not obtained by cancelling terms of order one
+# --------------------------------------------------------------------------
+# The chord function owes its accuracy for nearly coincident points (and the cross-product branch for nearly antipodal ones) to the
+# way the small quantity under the square root is built: a sum of squares of differences.  Each difference d_i cancels once (absolute
+# rounding error ~eps), the square has absolute error ~eps*|d_i|, so the root has absolute error ~eps.  An algebraically equal form
+# whose terms do not vanish one by one in the degenerate configuration (2 - 2*p1.p2, |p1|^2 + |p2|^2 - 2*p1.p2, 1 - (p1.p2)^2 for the
+# cross product) has absolute error ~eps in the radicand itself, hence ~eps/separation in the root: half of the digits are lost,
+# the result can be 0, 1e-8 or NaN for separations below 1e-8 rad.  This is an abstract interpretation over orders of magnitude
+# (value ~ s^v, absolute rounding error ~ eps*s^q for separation s from the degenerate configuration), not a numerical experiment.
+
+_ODD_AT_ZERO = (sp.sin, sp.tan, sp.asin, sp.atan, sp.sinh, sp.tanh)
+
+
+def _at(e, sub):
+    e = e.xreplace(sub)
+    try:
+        return e.replace(lambda x: isinstance(x, (sp.sin, sp.cos)), lambda x: x.func(sp.expand(x.args[0])))
+    except Exception:
+        return e
+
+
+def _nonvanishing(z):
+    """the term is structurally not the zero function: a non-zero number, a symbol, sin/cos of something that varies, products and
+    powers of those"""
+    if z.is_number:
+        return z != 0
+    if isinstance(z, sp.Symbol):
+        return True
+    if isinstance(z, sp.Mul):
+        return all(_nonvanishing(a) for a in z.args)
+    if isinstance(z, sp.Pow):
+        return z.exp.is_number and _nonvanishing(z.base)
+    if isinstance(z, (sp.sin, sp.cos)):
+        return bool(z.args[0].free_symbols)
+    return False
+
+
+class _Cond:
+    def __init__(self, sub, syms):
+        self.sub, self.syms, self.memo = sub, syms, {}
+
+    def vanishes(self, e):
+        """the term is identically zero in the degenerate configuration: True / False / None (not decided)"""
+        if e in self.memo:
+            return self.memo[e]
+        z = _at(e, self.sub)
+        if z == 0:
+            out = True
+        elif _nonvanishing(z):
+            out = False
+        else:
+            try:
+                z = sp.expand(z)
+            except Exception:
+                pass
+            if z == 0:
+                out = True
+            elif _nonvanishing(z):
+                out = False
+            else:
+                eq, d = symx.equal(z, sp.Integer(0))
+                out = True if eq else (False if _nonvanishing(d) else None)
+        self.memo[e] = out
+        return out
+
+    def order(self, e):
+        """lower bounds (v, q): value ~ s^v, absolute rounding error ~ eps*s^q near the degenerate configuration; (0, 0) is always
+        a valid answer"""
+        if not e.has(*self.syms):
+            return (0, 0)
+        if isinstance(e, sp.Add):
+            if all(self.vanishes(a) is True for a in e.args):
+                os_ = [self.order(a) for a in e.args]
+                return (min(o[0] for o in os_), min(o[1] for o in os_))
+            if self.vanishes(e) is True:
+                # a cancelling difference; the difference of two input angles themselves is exact
+                if all(a.as_independent(*self.syms, as_Add=False)[1] in self.syms for a in e.args):
+                    return (1, 1)
+                return (1, 0)
+            return (0, 0)
+        if isinstance(e, sp.Mul):
+            os_ = [self.order(a) for a in e.args]
+            v = sum(o[0] for o in os_)
+            return (v, min(o[1] + v - o[0] for o in os_))
+        if isinstance(e, sp.Pow):
+            n = e.exp
+            if n.is_Integer and n >= 1:
+                v, q = self.order(e.base)
+                return (n * v, q + (n - 1) * v)
+            return (0, 0)
+        if isinstance(e, _ODD_AT_ZERO) and self.vanishes(e.args[0]) is True:
+            return self.order(e.args[0])
+        return (0, 0)
+
+    def culprit(self, e):
+        """a sum that is positively identified as cancelling terms of order one and that reaches the radicand through sums and
+        order-one factors only (no square, no second small factor protects it): (the sum, one of its order-one terms) or None"""
+        if isinstance(e, sp.Add):
+            van = [self.vanishes(a) for a in e.args]
+            if all(v is True for v in van):
+                for a in e.args:
+                    c = self.culprit(a)
+                    if c:
+                        return c
+                return None
+            big = [a for a, v in zip(e.args, van) if v is False]
+            if big and self.vanishes(e) is True:
+                return (e, big[0])
+            return None
+        if isinstance(e, sp.Mul):
+            small = [a for a in e.args if self.vanishes(a) is not False]
+            if len(small) == 1:
+                return self.culprit(small[0])
+            return None
+        return None
+
+
+def conditioning_rule(chk, fi, tag, piece, what, v, syms, sub):
+    """the small quantity under the root of one piece of the chord function is built without cancelling terms of order one"""
+    key = "%s::%s-without-cancellation" % (tag, piece)
+    inv = list(v.atoms(sp.asin)) + list(v.atoms(sp.acos))
+    rad = set()
+    for a in inv:
+        rad |= {p.base for p in a.args[0].atoms(sp.Pow) if p.exp == sp.Rational(1, 2)}
+    rad = [x for x in rad if x.has(*syms)]
+    if len(inv) != 1 or len(rad) != 1:
+        chk.ob("R08.8", key, None, fi.where(), "the %s piece is not an inverse sine of one square root: %s" % (piece, str(v)[:160]))
+        return
+    R = rad[0]
+    cd = _Cond(sub, syms)
+    vq = cd.order(R)
+    if vq[1] >= 1:
+        ok, why = True, "absolute rounding error of the radicand scales with the separation (value order >= %s, error order >= %s)" % vq
+    else:
+        c = cd.culprit(R)
+        if c is None:
+            ok, why = None, "the way %s is computed is not recognised: %s" % (what, str(R)[:200])
+        else:
+            ok = False
+            why = ("the radicand is obtained by cancellation in `%s`, whose term `%s` is of order one for %s: the rounding error of "
+                   "that term (~1e-16) is an absolute error of the radicand, i.e. ~1e-16/separation in the root, so separations below "
+                   "~1e-8 rad are lost (0, ~1e-8 or NaN); sum the squares of the coordinate differences instead"
+                   % (str(c[0])[:200], str(c[1])[:80], "nearly coincident points" if piece == "chord" else "nearly antipodal points"))
+    chk.ob("R08.8", key, ok, fi.where(),
+           "%s is a sum of terms that vanish one by one for %s points (squares of differences), not the difference of terms of order one: %s"
+           % (what, "coincident" if piece == "chord" else "antipodal", why))
 
 
 def leaves(e, syms):
@@ -200,14 +477,23 @@ def _threshold(cond, dsq):
     num = [a for a in sp.Add.make_args(d) if a.is_number]
     t = -sp.Add(*num)
     x = d + t                       # x >= t
-    if not x.free_symbols or x.could_extract_minus_sign():
-        return None                 # `t' >= dsq`: an upper bound
-    if symx.equal(x, dsq)[0]:
-        return t
-    if t.is_nonnegative and symx.equal(x, sp.sqrt(dsq))[0]:
-        return t ** 2
-    if cond.rhs.is_number and num and symx.equal(cond.lhs, dsq)[0]:
-        return cond.rhs             # the squared chord written with a constant term of its own
+    if not x.free_symbols:
+        return None
+    if not x.could_extract_minus_sign():        # otherwise `t' >= dsq`, an upper bound, unless the last form below applies
+        if symx.equal(x, dsq)[0]:
+            return t
+        if t.is_nonnegative and symx.equal(x, sp.sqrt(dsq))[0]:
+            return t ** 2
+        if cond.rhs.is_number and num and symx.equal(cond.lhs, dsq)[0]:
+            return cond.rhs             # the squared chord written with a constant term of its own
+    # the bound stated on an equal form of the squared chord whose constant term was merged with the threshold (2 - 2*p1.p2 >= t is
+    # kept by the normaliser as 2*p1.p2 <= 2 - t): lhs - rhs == |p1-p2|^2 - t for a number t
+    try:
+        _, z = symx.equal(d, dsq)
+        if z.is_number and not z.free_symbols:
+            return -z
+    except Exception:
+        pass
     return None
 
 
@@ -268,6 +554,10 @@ def check_chord(chk, fi, tag, r, syms, uin, uout):
     chk.ob("R08.4", tag + "::chord-formula", eq, fi.where(), "chord branch is 2*asin(|p1-p2|/2) with inputs in %s%s" % (uin, "" if eq else " (difference %s)" % str(d)[:200]))
     eq, d = symx.equal(crossv, kf * (sp.pi - sp.asin(sp.sqrt(crosssq))))
     chk.ob("R08.4", tag + "::cross-product-formula", eq, fi.where(), "near-antipodal branch is pi - asin|p1 x p2|%s" % ("" if eq else " (difference %s)" % str(d)[:200]))
+    # conditioning of the two small quantities (R08.8): |p1-p2|^2 near coincidence, |p1 x p2|^2 near the antipode
+    half = sp.Integer(180) if uin == "deg" else sp.pi
+    conditioning_rule(chk, fi, tag, "chord", "|p1-p2|^2", chordv, syms, {ra2: ra1, dec2: dec1})
+    conditioning_rule(chk, fi, tag, "cross", "|p1 x p2|^2", crossv, syms, {ra2: ra1 + half, dec2: -dec1})
     # threshold: a lower bound t on |p1-p2|^2 was positively identified -> it must lie in the safe interval; a condition that is
     # not recognisably a bound on the squared chord gives no verdict (the formula rules above judge the pieces themselves)
     ok = None if thr is None else bool(sp.Rational(3) <= thr <= sp.Rational(39999, 10000))
